@@ -203,5 +203,53 @@ def exComma : DFA String String :=
     delta := [(("e,x", "a"), "o"), (("e,x", "b"), "o"), (("o", "a"), "e,x"), (("o", "b"), "e,x")],
     q0 := "e,x", F := ["e,x"] }
 
+/-! ### reverse exercise -/
+
+theorem succ_iff_Succ {σ τ : Type} [DecidableEq σ] [DecidableEq τ] (N : NFA σ τ) (q : σ) (a : τ) (r : σ) :
+    r ∈ N.succ q a ↔ N.Succ q a r := by
+  unfold NFA.succ NFA.Succ
+  exact C14b.mem_getD_iff.symm
+
+theorem reverseCheck_self (D : DFA String String) (hv : D.valid = true) (hk : (D.delta.map (·.1)).Nodup)
+    (fresh eps : String) (hf : fresh ∉ D.Q) (he : eps ∉ D.Sigma) (s : Sched) (len : Nat) :
+    reverseCheck D (D.reverse fresh eps) s len = .ok true := by
+  have hRv := reverse_valid D fresh eps hv hf he
+  obtain ⟨L, hL, hm⟩ := nfa_words_exact (D.reverse fresh eps) hRv s len
+  unfold reverseCheck
+  rw [hL]
+  simp only [bind, Except.bind, pure, Except.pure, Except.ok.injEq, Bool.and_eq_true, ssubset_iff,
+    List.all_eq_true, decide_eq_true_eq, C12a.compare_isNone_iff]
+  have hS : (D.reverse fresh eps).Sigma = D.Sigma := rfl
+  have hQ : (D.reverse fresh eps).Q = sinsert D.Q fresh := rfl
+  have h0 : (D.reverse fresh eps).q0 = fresh := rfl
+  have hF : (D.reverse fresh eps).F = [D.q0] := rfl
+  refine ⟨⟨⟨⟨⟨?_, ?_⟩, ?_⟩, ?_⟩, ?_⟩, ?_⟩
+  · rw [hS]; exact seq_refl _
+  · intro q hq
+    rw [hQ, mem_sinsert]
+    exact Or.inl hq
+  · rintro ⟨⟨q, a⟩, r⟩ hmem
+    rw [succ_iff_Succ, DFA.reverse_Succ_iff]
+    have hr : r ∈ D.Q := (DFA.valid_closed hv hmem).2.2
+    have hne : ¬ ((r, a) = (fresh, eps)) := by
+      intro h
+      simp only [Prod.mk.injEq] at h
+      exact hf (h.1 ▸ hr)
+    simp only
+    rw [if_neg hne]
+    exact hmem
+  · rw [h0]; exact hf
+  · rw [hF]; exact seq_refl _
+  · intro w
+    rw [hm w, langReverse_spec, dfa_words_exact D hv len w.reverse, hS, List.length_reverse]
+    have hrev : (∀ a, a ∈ w.reverse → a ∈ D.Sigma) ↔ (∀ a, a ∈ w → a ∈ D.Sigma) := by
+      simp only [List.mem_reverse]
+    rw [hrev]
+    constructor
+    · rintro ⟨h1, h2, h3⟩
+      exact ⟨h1, h2, (reverse_lang D fresh eps hv hf he hk w h2).mp h3⟩
+    · rintro ⟨h1, h2, h3⟩
+      exact ⟨h1, h2, (reverse_lang D fresh eps hv hf he hk w h2).mpr h3⟩
+
 end C13a
 end Gamba
